@@ -89,6 +89,7 @@ def run(ctx):
     multi = nonascii = 0
     capi_cmp = capi_bad = late_cases = 0
     docs_by_set = {}
+    mrdocs = 0
     names_total = arr_bad = arr_bad_cases = 0
     arr_bad_ids = []
     for line in out.split("\n"):
@@ -149,6 +150,7 @@ def run(ctx):
                 ctx.violation("judge", "C18 C API (c_lib.rs ts_tagger_tag) disagrees with the Rust API on the same input: " + kv["capi"][:200],
                               {"case": cid, "spec": specs.get(cid, ""), "result": kv},
                               fingerprint={"queryset": qid, "clause": "capi"})
+        mrdocs += int(kv.get("mrdocs", 0))
         docs_by_set[qid] = docs_by_set.get(qid, 0) + int(kv.get("withdocs", 0))
     matching = [VARIANTS[i] for i in range(NV) if var_ok[i]]
     if corr_cases and not matching:
@@ -186,6 +188,7 @@ def run(ctx):
         "c_api": {"compared": capi_cmp, "equal": capi_cmp - capi_bad,
                   "what": "ts_tagger_new/add_language/tag + ts_tags_buffer_* read through the C struct layout of tags.h vs the Rust iterator"},
         "tags_with_docs_by_query_set": docs_by_set,
+        "doc_captures_spanning_several_rows": mrdocs,
         "explorer_summary": summary,
         "model_variants_matching_all_cases": matching,
         "correspondence": {"compared": corr_cases, "equal": corr_cases - (0 if matching else corr_bad_asis)},
